@@ -1330,14 +1330,14 @@ func (p *wat2cWorker) buildFunc_ins(w io.Writer, fn *ast.Func, stk *valueTypeSta
 		off := stk.Pop(token.I32)
 		dst := stk.Pop(token.I32)
 
+		// off 和 len 是运行时的值(寄存器编号对应的值), 不能在翻译阶段切片
 		var sb strings.Builder
-		datai := p.m.Data[i.DataIdx].Value[off:][:len]
-		for _, x := range datai {
+		for _, x := range p.m.Data[i.DataIdx].Value {
 			sb.WriteString(fmt.Sprintf("\\x%02x", x))
 		}
 
-		fmt.Fprintf(w, "%smemcpy(&%s_memory[R%d.i32], (void*)(\"%s\"), %d); // %s\n",
-			indent, p.opt.Prefix, dst, sb.String(), len,
+		fmt.Fprintf(w, "%smemcpy(&%s_memory[R%d.i32], (const char*)(\"%s\")+R%d.i32, R%d.i32); // %s\n",
+			indent, p.opt.Prefix, dst, sb.String(), off, len,
 			insString(i),
 		)
 	case token.INS_MEMORY_COPY:
